@@ -2,7 +2,7 @@
    and "no update pending" means the same tokens up to quote style, implicit concatenation and trailing commas (C05). *)
 From Coq Require Import List NArith Arith Bool Lia.
 Import ListNotations.
-From V Require Import Model.StrLit Model.Tokens Proofs.StrLitRepr Proofs.StrLitBytes.
+From V Require Import Model.StrLit Model.Tokens Proofs.StrLitRepr Proofs.StrLitBytes Proofs.StrLitTriple.
 Open Scope N_scope.
 
 Lemma str_eqb_refl s : str_eqb s s = true.
@@ -218,6 +218,25 @@ Proof. intros Hs. split; [apply py_repr_simple|]. exists (SV false s). cbn [tx r
 Theorem bytes_repr_self_repr s : Forall (fun c => c < 256) s -> self_repr (Tok 3 (bytes_repr s)).
 Proof. intros Hs. split; [apply bytes_repr_simple|]. exists (SV true s). cbn [tx repr_sval]. split; [|reflexivity].
   unfold lit_eval. pose proof (bytes_repr_roundtrip s Hs) as R. unfold bytes_repr in *. cbn [app] in *. rewrite R. reflexivity. Qed.
+
+(* a triple-quoted token the lexer model reads is a token of the second kind: not merged, equal to itself *)
+Lemma quoted3_other t q rest v : (q = 39 \/ q = 34) -> t = q3 q ++ rest -> decode_literal t = Done v [] -> other_tok (Tok 3 t).
+Proof. intros Hq -> Hd. unfold other_tok.
+  destruct Hq as [-> | ->]; (split; [reflexivity|]);
+  unfold tok_eqb; cbn [ty tx]; unfold lit_eval; cbn [q3 app] in *; rewrite Hd; cbn [done];
+  rewrite sval_eqb_refl, str_eqb_refl; reflexivity. Qed.
+
+Lemma triple_quote_starts s : exists q rest, (q = 39 \/ q = 34) /\ triple_quote printable true s = q3 q ++ rest.
+Proof. rewrite triple_quote_eq_atoms. unfold triple_quote_a, triple_atoms.
+  destruct (choose_q_spec printable (extra_of s) s (possible_exists printable s)) as [Hq _].
+  eexists; eexists; split; [exact Hq | reflexivity]. Qed.
+
+(* every token value_to_token writes for a str value - one line or triple quoted (map_string) - meets the premise of the fixpoint theorems *)
+Theorem str_literal_canon s : Forall (fun c => c <= 1114111) s -> canon_tok (Tok 3 (str_literal printable true s)).
+Proof. intros Hs. unfold str_literal. destruct (use_triple s).
+  - right. destruct (triple_quote_starts s) as [q [rest [Hq E]]].
+    apply (quoted3_other _ q rest s Hq E). apply triple_quote_fixed_roundtrip; exact Hs.
+  - left. apply py_repr_self_repr; exact Hs. Qed.
 End P.
 
 (* C08 (refuted for the leaf comparison): a leaf whose canonical code holds `,)` - a set of 1-tuples - is compared with the
